@@ -4,7 +4,7 @@ CONSTANTS
   Gen = "iter"
   Dev = {}
   LastBy = "identity"
-  MaxLines = 6
+  MaxLines = 5
   MaxDepth = 5
   MaxBlank = 0
   Names <- C04_Names
